@@ -136,6 +136,7 @@ def run(chk, replay):
         # the working directory changes between runs on plotfiles typed under a relative name (PoolEnv.tla)
         from harness import poolenv
         poolenv.tool_phase(chk, "whip")
+        spawn_phase(chk)
         # hierarchies whose levels refine by 4, or by different ratios from one jump to the next (Refine.tla): a level's cells are
         # Fac(l) = the PRODUCT of the ratios below it per level-0 cell
         from harness import refine
@@ -145,11 +146,35 @@ def run(chk, replay):
     covertrace.phase(chk, "whip")
 
 
+def spawn_phase(chk):
+    """whip once more with GENUINE process pools in a child process, as they come, with a slow task-handler thread, and with
+    workers started by 'spawn' (they do not inherit the parent's memory): the saved grid must be the one of the in-process
+    reference run, which the replays above judge cell for cell (checks/c12.py: real_pool_phase)."""
+    from checks import c12
+    # StartMethod.tla: the request reaches a worker in its task under "fork" and under "spawn" alike (by-task holds, by-global does not)
+    for sm in ("fork", "spawn"):
+        r = chk.add_tlc(tlc.run("StartMethod", {"SPECIFICATION": "Spec", "CONSTANTS": {"StartMethod": '"%s"' % sm, "Transport": '"by-task"', "Requests": "{0, 1, 2}"},
+                                                "INVARIANTS": ["WorkerSeesRequest"], "PROPERTIES": ["Terminates"]}, workers=1, timeout=120),
+                        "what a worker needs travels in its task (start method %s)" % sm)
+        if r.violated:
+            chk.note_drift("TLC: %s violated in StartMethod.tla" % r.violated)
+    D = c12.drivers()
+    n, seed = 2, chk.seed * 10 + 2
+    paths = c12.make_inputs(chk, n, seed)
+    ref = c12.run_tool(chk, "whip", D["whip"][0], paths, {}, default="fifo")
+    if "exc" in ref:
+        chk.violation(util.sig_str("whip", n, "reference"), "whip raised in the reference run: %s" % ref["exc"], {"real_pool": True})
+        return
+    c12.real_pool_phase(chk, D, ["whip"], {("whip", n): (ref, seed)})
+
+
 def _run(chk, replay):
     chk.rule = ("behaviours of Whip.tla emitted by TLC (mesh x files per level x limit x arrival order), replayed through whip's "
                 "main() with float64/float32/float16/int16/int32/int64 (integer and half grids on moderate finite values) and the lattice axes assigned to every permutation of (x, y, z); signature = (levels, "
                 "limit, per-level (boxes, files), arrival class, dtype, axes); trivial = one level, one file")
     chk.assumptions = ["third axis extruded with 2-5 level-0 cells, cut into two slabs two times out of three"]
+    if replay and replay["scenario"].get("real_pool"):
+        return spawn_phase(chk)
     if replay:
         s = replay["scenario"]
         v = run_scenario(chk, s["sc"], s["cfgseed"], s["dtype"], tuple(s["axes"]), crowd=bool(s.get("crowd")))
